@@ -12,7 +12,7 @@ _fn = slicer.find(_tree, ast.FunctionDef, lambda n: n.name == "parse_dump_xml")
 _loop = slicer.find(_fn, ast.For, lambda n: "iterparse" in ast.unparse(n.iter))
 # one page = one execution of the loop body (`continue` needs a loop around it)
 _wrapper = ast.For(target=ast.Name(id="_once", ctx=ast.Store()), iter=ast.parse("(0,)").body[0].value, body=_loop.body, orelse=[], lineno=_loop.lineno, col_offset=0)
-STEP, STEP_SRC = slicer.make_function("dump_step", "wtp, page_element, namespace_ids", "page_nums = 0", ast.fix_missing_locations(_wrapper), "return None", {"logger": D.logger}, f"dumpparser.py:{_loop.lineno}")
+STEP, STEP_SRC = slicer.make_function("dump_step", "wtp, page_element, namespace_ids", "page_nums = 0", ast.fix_missing_locations(_wrapper), "return None", dict(vars(D)), f"dumpparser.py:{_loop.lineno}")
 
 MODELS = ["wikitext", "Scribunto", "json", "css", "javascript", "sanitized-css", "text", "", "GadgetDefinition"]
 KEPT = {"wikitext", "Scribunto", "json"}
